@@ -32,7 +32,8 @@ LEVEL_TEXT = ("Exploration: hundreds (quick) to thousands (thorough) of generate
               "roots) each driven through a history of 5-60 operations with the open log checked "
               "after every step; chains with empty members and chains of chains indexed over the "
               "whole range [-N, N) and just outside it. Held = held on those executions."
-              "Populations of 140-200 files are walked twice; map runs with verbose off and on with a deliberately slow first tree.")
+              "Populations of 140-200 files are walked twice; map runs with verbose off and on with a deliberately slow first tree."
+              " Directory roots are spelled with trailing / doubled separators and relative to the working directory.")
 LEVEL_NOTE = ("'The i-th file' is the i-th entry of the library's own listing (Population.find_swcs), "
               "which must be a permutation of the layout's .swc files; the order of a directory walk "
               "is the operating system's. Population.map runs in worker processes and is decided at "
@@ -49,7 +50,7 @@ REQUIRED = ["histories", "operations", "open_log_checks", "index_ops", "negative
             "slice_ops", "iterate_ops", "filter_ops", "out_of_range_ops", "chain_elements_checked",
             "chain_negative_indices", "chain_empty_members", "populations_rows_checked", "populations_slices_checked",
             "to_population_checked", "map_checked", "map_verbose_checked", "map_then_read_audited", "listing_order_injected",
-            "large_populations",
+            "large_populations", "roots_spelled_differently",
             "transform_checked", "tap_load",
             "audit_file_opens"]
 FLOOR = {"quick": 250, "thorough": 5000}
@@ -108,6 +109,21 @@ class OpenLog:
         return c
 
 
+def _spell(ctx, root, rng):
+    """Another spelling of the same directory, as callers write them (trailing separator, doubled
+    separators, relative to the working directory)."""
+    k = int(rng.integers(0, 6))
+    if k >= 3:
+        return root
+    ctx.count("roots_spelled_differently")
+    if k == 0:
+        return root + os.sep
+    if k == 1:
+        head, tail = os.path.split(root)
+        return head + os.sep + os.sep + tail + os.sep
+    return os.path.relpath(root, os.getcwd())
+
+
 def check_history(ctx, case, tmp):
     from swcgeom.core import Population
 
@@ -124,7 +140,7 @@ def check_history(ctx, case, tmp):
     log = OpenLog(root)
     with warnings.catch_warnings():
         warnings.simplefilter("ignore")
-        pop = Population.from_swc(root)
+        pop = Population.from_swc(_spell(ctx, root, np.random.default_rng(case["seed"] + 5)))
     listing = [os.path.relpath(p, root) for p in Population.find_swcs(root)]
     if sorted(listing) != sorted(files):
         return ctx.violation("listing-wrong", f"find_swcs lists {sorted(listing)[:5]}..., the "
@@ -377,7 +393,8 @@ def check_populations(ctx, case, tmp):
     try:
         with warnings.catch_warnings():
             warnings.simplefilter("ignore")
-            pops = Populations.from_swc(roots)
+            srng = np.random.default_rng(case["seed"] + 5)
+            pops = Populations.from_swc([_spell(ctx, r_, srng) for r_ in roots])
     finally:
         os.walk = real_walk
     with warnings.catch_warnings():
